@@ -13,7 +13,7 @@ TRUSTED = [
     "declarative specifications in coq/Spec are transcriptions of the published algorithms",
 ]
 ASSUMPTIONS = ["hand-written model validated by execution on every run"]
-MANIFEST = dict(category="proof", text='Model of Canon for all systems validated against Go on every generated string (both showBuild modes); the three re-parse clauses and canon-injectivity are evaluated directly on the implementation for every accepted string; theorems in Properties/C10*.v: canon is a function of the parsed fields, clause 4 follows from clauses 1-2 and the C01 order laws, plus the per-system round-trip theorems of the part modules where proved.', note='The print/parse inversion for the SemVer family is NOT a theorem (decided by correspondence + oracle); RubyGems prerelease canon is a recorded finding.', technique='Rocq lemmas over the canon model + differential correspondence + direct re-parse oracle', design='8 C10')
+MANIFEST = dict(category="proof", text='Model of Canon for all systems validated against Go on every generated string (both showBuild modes); the three re-parse clauses and canon-injectivity are evaluated directly on the implementation for every accepted string; theorems in Properties/C10*.v: canon is a function of the parsed fields, clause 4 follows from clauses 1-2 and the C01 order laws, plus the per-system round-trip theorems of the part modules where proved.', note='SemVer family (Default, Cargo, Go, NPM, NuGet, Composer): print/parse inversion proved for all byte strings (C10_family_reparse_fixed: the canonical string parses and is a fixed point; C10_family_reparse_partial/_exact: compares equal exactly on c10_family_dom; full for Go and Composer); the full statement is refuted for wildcard versions with a prerelease or a non-zero number after the wildcard (C10_family_reparse_refuted: 1.*.3, 1.*-a in Default/Cargo/NPM, 1.*-a in NuGet). RubyGems prerelease canon is a recorded finding.', technique='Rocq lemmas over the canon model + differential correspondence + direct re-parse oracle', design='8 C10')
 
 
 def run(ctx):
